@@ -18,12 +18,21 @@ step entropies; evaluate(actions) reproduces per-step LL, reward, entropy.
 Correspondence (b): real policies (random weights) that use the common loop; per-step logits are recorded by wrapping
 DecodingStrategy.step and the same three facts are checked on the implementation's own outputs (tolerance 1e-4).
 
+Additions (mutation sweep 2): (i) the VALUE of outdict["entropy"] is compared with the model (Decoding/DecodeLoopEntropy.v
+at (Qc, lnQ)) on every store_all_logp pass; (ii) the configuration travels RAW and the model resolves it (C12's
+strategy_init / hook_num_starts): a grid of select_best x multistart x num_starts in {0,1,2} x multisample corners,
+including select_best=True without replicas and the constructor's assertion; (iii) max_steps: passes with
+max_steps = T-1 (the budget is exactly the episode: fuel = max_steps + 1 = T), T and T-2 (one step short: truncated rows),
+T = number of decoder steps of the same pass without a budget; (iv) every call into the policy goes through
+vt.decode_guard.call (wall clock).
+
 PARTIAL: that the network is the same per-row function in both passes (no dropout / batch statistics) is assumed."""
 import math
 import time
 from fractions import Fraction
 
 from vt.common import Ctx, cq, clist, cz, cnat, cnatlist, cboollist, cbool, coq_eval_shards
+from vt import decode_guard as dg
 
 HEADER = ("From Coq Require Import List ZArith QArith.\nFrom RL4CO Require Import Harness.HC11.\n"
           "Import ListNotations.\nOpen Scope Q_scope.\n")
@@ -110,19 +119,67 @@ def obj_to_td(obj, B):
 
 
 # ----------------------------------------------------------------------------------------------- one pass of the real code
+def resolve_cfg(ms, mp, ns, nsamp, dflt):
+    """python mirror of DecodingStrategy.__init__ + the first block of pre_decoder_hook (the Coq side recomputes it from the
+    same raw arguments with C12's strategy_init / hook_num_starts): -> (multistart, num_starts) or None = the constructor raises"""
+    if ms and mp:
+        return None
+    if nsamp and ns and nsamp > 1 and ns > 1:
+        return None
+    if nsamp is not None:
+        mp = nsamp > 1
+    if ns is not None:
+        ms = ns > 1
+    n = ns if ms else nsamp
+    if ms or mp:
+        n = dflt if n is None else n
+    else:
+        n = 0
+    return ms, n
+
+
 class PassCfg:
-    def __init__(self, mode, S=0, ms=False, sb=False, sa=False, temp="1", top_k=0, top_p=0.0, flags=0, dtype="float32"):
+    def __init__(self, mode, S=0, ms=False, sb=False, sa=False, temp="1", top_k=0, top_p=0.0, flags=0, dtype="float32",
+                 raw=None, max_steps=None, max_kind=None, light=False, dflt=0):
         self.mode, self.S, self.ms, self.sb, self.sa = mode, S, ms, sb, sa
         self.temp, self.top_k, self.top_p, self.flags, self.dtype = temp, top_k, top_p, flags, dtype
+        # raw: (multistart, multisample, num_starts, num_samples) as handed to the policy (grid stream); S / ms are then
+        # the resolved values.  max_steps: the budget handed to forward (None: default).  dflt: env.get_num_starts(td)
+        self.raw, self.max_steps, self.max_kind, self.light, self.dflt = raw, max_steps, max_kind, light, dflt
 
     def decode_type(self):
         if self.mode == "evaluate":
             return "evaluate"
+        if self.raw is not None:
+            return self.mode
         return ("multistart_" if self.ms else "") + self.mode
+
+    def raw_tuple(self):
+        """(multistart, multisample, num_starts, num_samples) as the DecodingStrategy constructor receives them"""
+        if self.raw is not None:
+            return tuple(self.raw)
+        if self.mode == "evaluate" or self.S < 1:
+            return (False, False, None, None)
+        return (True, False, self.S, None) if self.ms else (False, False, None, self.S)
+
+    def clone(self, **over):
+        d = dict(mode=self.mode, S=self.S, ms=self.ms, sb=self.sb, sa=self.sa, temp=self.temp, top_k=self.top_k, top_p=self.top_p,
+                 flags=self.flags, dtype=self.dtype, raw=self.raw, max_steps=self.max_steps, max_kind=self.max_kind,
+                 light=self.light, dflt=self.dflt)
+        d.update(over)
+        return PassCfg(**d)
 
     def as_dict(self):
         return dict(mode=self.mode, num_starts=self.S, multistart=self.ms, select_best=self.sb, store_all_logp=self.sa,
-                    temperature=self.temp, top_k=self.top_k, top_p=self.top_p, flag_kind=self.flags, dtype=self.dtype)
+                    temperature=self.temp, top_k=self.top_k, top_p=self.top_p, flag_kind=self.flags, dtype=self.dtype,
+                    raw=None if self.raw is None else list(self.raw), max_steps=self.max_steps, max_kind=self.max_kind,
+                    env_default_num_starts=self.dflt)
+
+
+def cfg_from_dict(c):
+    return PassCfg(c["mode"], c["num_starts"], c["multistart"], c["select_best"], c["store_all_logp"], c["temperature"], c["top_k"],
+                   c["top_p"], c["flag_kind"], c["dtype"], raw=c.get("raw"), max_steps=c.get("max_steps"), max_kind=c.get("max_kind"),
+                   dflt=c.get("env_default_num_starts", 0))
 
 
 def make_stub_cls():
@@ -195,12 +252,21 @@ def run_pass(env, td_in, seeds, cfg, actions=None, torch_seed=0, ret_sum=False, 
     if cfg.mode != "evaluate":
         kw["decode_type"] = cfg.decode_type()
         kw["select_best"] = cfg.sb
-        if cfg.S >= 1:
+        if cfg.raw is not None:
+            rms, rmp, rns, rnsamp = cfg.raw
+            kw.update(multistart=rms, multisample=rmp)
+            if rns is not None:
+                kw["num_starts"] = rns
+            if rnsamp is not None:
+                kw["num_samples"] = rnsamp
+        elif cfg.S >= 1:
             kw["num_starts" if cfg.ms else "num_samples"] = cfg.S
+    if cfg.max_steps is not None:
+        kw["max_steps"] = cfg.max_steps
     torch.manual_seed(torch_seed)
     with torch.no_grad():
-        out = pol(td_in.clone(), env, phase="test", return_actions=True, return_entropy=cfg.sa,
-                  return_sum_log_likelihood=ret_sum, actions=actions, **kw)
+        out = dg.call("ConstructivePolicy.forward", pol, td_in.clone(), env, phase="test", return_actions=True, return_entropy=cfg.sa,
+                      return_sum_log_likelihood=ret_sum, actions=actions, **kw)
     res = {"actions": [[int(a) for a in row] for row in out["actions"]],
            "reward": [float(x) for x in out["reward"].reshape(-1)],
            "reward_t": out["reward"].reshape(-1).clone()}
@@ -257,7 +323,10 @@ def run(ctx: Ctx, proofs_ok: bool):
                 "(cases whose nucleus threshold is within 1e-3 of a cumulative probability are dropped and counted), td['mask'] "
                 "flags absent / not-done / hash bits, float32 and float64 logits; (b) real policies with random weights, per-step "
                 "logits recorded by wrapping DecodingStrategy.step. non-trivial = a pass with >= 2 steps at which >= 2 actions were "
-                "feasible; distinct by hash of (env, instance data, configuration, oracle)")
+                "feasible; distinct by hash of (env, instance data, configuration, oracle).  Deterministic additions: the raw configuration grid "
+                "select_best x multistart x num_starts in {0,1,2} x multisample on tsp-4/5 (B 1..3; the model resolves the raw arguments), and "
+                "max_steps in {T-2, T-1, T} for the T decoder steps of the un-budgeted pass on tsp / cvrp / pctsp / multistart tsp; "
+                "outdict['entropy'] is compared with the model's value on every store_all_logp pass")
     ctx.assumptions += [
         "PARTIAL: the network is modelled as a per-row function dec(hidden, state) -> (logits, mask), the same in both passes; "
         "determinism of a real network between the rollout and the evaluating pass (dropout, batch statistics) is NOT modelled",
@@ -267,9 +336,14 @@ def run(ctx: Ctx, proofs_ok: bool):
         "log-likelihood by the product of step probabilities at weights 2^z; float rounding is kept out by the ln2 grid and "
         "tolerances (1e-5 float32 / 1e-9 float64 on probabilities, 1e-4 on real-policy log-likelihoods)",
         "top_p in the loop correspondence only with a 1e-3 margin between threshold and cumulative probabilities (C10's rule)",
+        "entropy value: executable log = lnQ (62-bit fixed point, error < 2e-10 validated by Examples in Decoding/EntropyInst.v, not proved); "
+        "tolerance 5e-5 (float32) / 1e-7 (float64) per row",
+        "max_steps: the model's fuel is max_steps + 1 (the test `step > max_steps` follows the increment); without max_steps the cases use "
+        "fuel 60 >= every episode of the stream, justified by C11_forward_fuel_independent (the code's default is 1_000_000)",
     ]
     ctx.trusted.append("vt/props/c11.py: stub decoder, tabulation of the real env along visited prefixes, spec_dist (exact independent "
-                       "step distribution), wrapper around DecodingStrategy.step for real policies")
+                       "step distribution), wrapper around DecodingStrategy.step for real policies, resolve_cfg (python mirror of the "
+                       "constructor's flag resolution, used only to drive the stub; the model resolves the raw arguments itself)")
     ctx.notes.append("policies with their own decoding loop are outside the model and not checked here: MDAMPolicy (MDAM decoder loop), "
                      "PointerNetworkPolicy, MultiStageFFSPPolicy, DeepACOPolicy in val/test phase (ant system), L2DPolicy4PPO.act/evaluate "
                      "(stepwise PPO), improvement policies (N2S, DACT, NeuOpt); beam_search is C13's unit")
@@ -334,8 +408,10 @@ def run(ctx: Ctx, proofs_ok: bool):
             rep.update(extra)
         return rep
 
-    def add_case(name, gp, B, seeds, cfg, table, rtab_rows, flags_rows_all, all_acts, starts, ors, obs, insts_rep, tag):
-        """insts_rep: number of times the B instances are listed explicitly (evaluate on a batchified td)."""
+    def add_case(name, gp, B, seeds, cfg, table, rtab_rows, flags_rows_all, all_acts, starts, ors, obs, insts_rep, tag,
+                 ents=None, raised=False):
+        """insts_rep: number of times the B instances are listed explicitly (evaluate on a batchified td).
+        ents: outdict["entropy"] of the returned rows (store_all_logp passes); raised: the constructor's assertion fired."""
         _, tm, td_ = TEMPS[cfg.temp]
         scale = td_
         insts = []
@@ -354,13 +430,22 @@ def run(ctx: Ctx, proofs_ok: bool):
         tol = Fraction(1, 100000) if cfg.dtype == "float32" else Fraction(1, 10 ** 9)
         rtol = Fraction(3, 100000) if cfg.dtype == "float32" else Fraction(1, 10 ** 8)
         obs_s = clist("(%s, %s, %s, %s)" % (cnatlist(a), clist(cq(p) for p in ps), cq(ll), cz(rw)) for a, ps, ll, rw in obs)
-        ms_model = cfg.ms and cfg.mode != "evaluate"
-        S_model = cfg.S if cfg.mode != "evaluate" else 0
-        case = "mk11 %s %s %s %s %s %s %s %s %s %s %s %s %s %s %s %s" % (
-            cnat(mode_n), cbool(cfg.sa), cbool(ms_model), cnat(S_model), cbool(cfg.sb and cfg.mode != "evaluate"), cnat(60),
+        rms, rmp, rns, rnsamp = cfg.raw_tuple()
+        opt = lambda v: "None" if v is None else "(Some %s)" % cz(v)
+        # fuel = max_steps + 1 when the pass was given a budget; otherwise any fuel >= the episode length gives the same rows
+        # (C11_forward_fuel_independent; the code's default max_steps is 1_000_000)
+        fuel = 60 if cfg.max_steps is None else cfg.max_steps + 1
+        etol = Fraction(5, 100000) if cfg.dtype == "float32" else Fraction(1, 10 ** 7)
+        case = "mk11 %s %s %s %s %s %s %s %s %s %s %s %s %s %s %s %s %s %s %s %s %s %s" % (
+            cnat(mode_n), cbool(cfg.sa), cbool(rms), cbool(rmp), opt(rns), opt(rnsamp), cz(cfg.dflt),
+            cbool(cfg.sb and cfg.mode != "evaluate"), cnat(fuel),
             cz(tm), cz(td_), cnat(cfg.top_k), cq(Fraction(cfg.top_p)),
-            clist(insts * insts_rep), cnatlist(starts), clist(cnatlist(o) for o in ors), obs_s, cq(tol), cq(rtol))
+            clist(insts * insts_rep), cnatlist(starts), clist(cnatlist(o) for o in ors), obs_s, cq(tol), cq(rtol),
+            clist(cq(Fraction(x)) for x in (ents or [])), cq(etol), cbool(raised))
         cases.append(case)
+        if ents:
+            ctx.count("stub_cases_with_entropy_value")
+            ctx.count("stub_entropy_rows_compared_with_the_model", len(ents))
         meta.append({"env": name, "generator_params": gp, "B": B, "seeds": seeds, "config": cfg.as_dict(), "tag": tag,
                      "returned_actions": [o[0] for o in obs]})
 
@@ -377,13 +462,62 @@ def run(ctx: Ctx, proofs_ok: bool):
         tseed = rng.randrange(2 ** 31)
         _, tm, td_ = TEMPS[cfg.temp]
         scale = td_
+        cfg.dflt = int(env.get_num_starts(td0))
+        if cfg.raw is not None:      # grid stream: the raw arguments are resolved here (and again by the model)
+            eff = resolve_cfg(*cfg.raw, cfg.dflt)
+            ctx.count("grid_passes")
+            if eff is None:
+                cfgx = cfg.clone()
+                try:
+                    run_pass(env, td0, seeds, cfgx, torch_seed=tseed, StubDecoder=StubDecoder)
+                    raised = False
+                except dg.DecodeTimeout as exc:
+                    fails.append((dg.signature(exc.fn_name), scenario_replay(name, gp, data_obj, B, seeds, cfgx, str(exc))))
+                    return
+                except AssertionError:
+                    raised = True
+                ctx.count("grid_passes_constructor_asserts")
+                add_case(name, gp, B, seeds, cfgx, {}, [], None, [], [], [], [], 1, "grid-constructor", raised=raised)
+                if not raised:
+                    fails.append(("forward/grid: multistart and multisample together are accepted",
+                                  scenario_replay(name, gp, data_obj, B, seeds, cfgx, "DecodingStrategy.__init__ asserts not (multistart and multisample)")))
+                ctx.seen({"env": name, "gp": gp, "data": data_obj, "cfg": cfgx.as_dict()}, nontrivial=False)
+                return
+            cfg.ms, cfg.S = bool(eff[0]), int(eff[1])
+            if cfg.S > 6:
+                return
         forced = cfg.ms and cfg.S >= 1
         # 1. the pass without select_best: every rollout is returned
-        cfg0 = PassCfg(cfg.mode, cfg.S, cfg.ms, False, cfg.sa, cfg.temp, cfg.top_k, cfg.top_p, cfg.flags, cfg.dtype)
+        cfg0 = cfg.clone(sb=False)
+        ref = None
+        if cfg.max_kind is not None:
+            # the same pass without a budget: T = its number of decoder steps; its table (every prefix with the real mask / done)
+            # and its actions (the oracle) are what the model is given, so that a truncated pass is compared with what the MODEL
+            # returns for fuel = max_steps + 1, not with itself
+            if cfg.max_kind == "short":
+                from rl4co.envs import get_env as _ge
+                env = _ge(name, generator_params=dict(gp), check_solution=False)
+                td0 = env.reset(data.clone())
+            try:
+                resR, stubR = run_pass(env, td0, seeds, cfg0.clone(max_steps=None), torch_seed=tseed, StubDecoder=StubDecoder)
+            except Exception:
+                return
+            T_iter = stubR.calls
+            ms_val = {"exact": T_iter - 1, "plus1": T_iter, "short": T_iter - 2}[cfg.max_kind]
+            if ms_val < 0 or (cfg.max_kind == "short" and T_iter < 2):
+                return
+            cfg.max_steps = cfg0.max_steps = ms_val
+            ref = dict(stubR.table)
+            for r, acts in enumerate(resR["actions"]):
+                ref.setdefault((r % B, tuple(acts)), ((), True))
+            ctx.count("max_steps_passes_" + cfg.max_kind)
         try:
             res, stub = run_pass(env, td0, seeds, cfg0, torch_seed=tseed, StubDecoder=StubDecoder)
             res_sum, _ = run_pass(env, td0, seeds, cfg0, torch_seed=tseed, ret_sum=True, StubDecoder=StubDecoder)
         except Exception as exc:     # the code raised on a well-formed call
+            if isinstance(exc, dg.DecodeTimeout):
+                fails.append((dg.signature(exc.fn_name), scenario_replay(name, gp, data_obj, B, seeds, cfg0, str(exc))))
+                return
             if raised_in_env(exc):       # the environment rejected the episode (forced start nodes: C12), not the decode loop
                 ctx.count("stub_passes_rejected_by_the_environment_itself")
                 if not any("rejected by the environment" in n for n in ctx.notes):
@@ -401,11 +535,15 @@ def run(ctx: Ctx, proofs_ok: bool):
         R = len(res["actions"])
         all_acts = res["actions"]
         table = dict(stub.table)
-        for r, acts in enumerate(all_acts):      # the loop stopped: every row is done at its final prefix
-            table.setdefault((r % B, tuple(acts)), ((), True))
+        if ref is not None:
+            table.update(ref)                    # the un-budgeted pass: real mask / done of every prefix, also beyond a truncation
+        else:
+            for r, acts in enumerate(all_acts):  # the loop stopped: every row is done at its final prefix
+                table.setdefault((r % B, tuple(acts)), ((), True))
         flags_rows = stub.flagrows if cfg.flags else None
         starts = [a[0] for a in all_acts] if forced else []
-        ors = [(a[1:] if forced else a) for a in all_acts] if cfg.mode == "sampling" else [[] for _ in range(R)]
+        oracle_acts = resR["actions"] if ref is not None and len(resR["actions"]) == R else all_acts
+        ors = [(a[1:] if forced else a) for a in oracle_acts] if cfg.mode == "sampling" else [[] for _ in range(R)]
         steps_choice = sum(1 for (b, p), (m, d) in stub.table.items() if sum(m) >= 2)
         nontrivial = steps_choice >= 2 and len(all_acts[0]) >= 2
         ctx.seen({"env": name, "gp": gp, "data": data_obj, "cfg": cfg.as_dict(), "seeds": seeds, "or": ors}, nontrivial=nontrivial)
@@ -428,7 +566,18 @@ def run(ctx: Ctx, proofs_ok: bool):
             ctx.count("stub_passes_top_p")
         obs = [(all_acts[r], [exp_fr(x) for x in res["ll_steps"][r]], exp_fr(res_sum["ll_sum"][r]), rew_int(res["reward"][r]))
                for r in range(R)]
-        add_case(name, gp, B, seeds, cfg0, table, res["reward"], flags_rows, all_acts, starts, ors, obs, 1, "rollout")
+        add_case(name, gp, B, seeds, cfg0, table, res["reward"], flags_rows, all_acts, starts, ors, obs, 1,
+                 "rollout" if cfg.max_kind is None else "max_steps-" + cfg.max_kind, ents=res.get("entropy"))
+        if cfg.max_kind is not None:
+            # the budget is at least the episode (max_steps + 1 >= T): the pass must return what the un-budgeted pass returned
+            if cfg.max_kind in ("exact", "plus1") and all_acts != resR["actions"]:
+                fails.append(("forward/max_steps: rollout truncated although max_steps + 1 decoding steps complete the episode",
+                              scenario_replay(name, gp, data_obj, B, seeds, cfg0,
+                                              "the pass needs %d decoder steps; with max_steps=%d (the loop runs until step > max_steps, i.e. up to "
+                                              "%d steps) it returned %s instead of %s" % (T_iter, cfg.max_steps, cfg.max_steps + 1, all_acts, resR["actions"]),
+                                              {"returned_actions": all_acts, "expected_actions": resR["actions"]})))
+            if cfg.max_kind == "short":
+                ctx.count("max_steps_short_rows_truncated", sum(1 for a, f in zip(all_acts, resR["actions"]) if len(a) < len(f)))
         if idx < 4:
             ctx.sample({"stream": "stub", "env": name, "generator_params": gp, "B": B, "seeds": seeds, "config": cfg0.as_dict(),
                         "returned_actions": all_acts, "returned_ll_steps": [[round(x, 6) for x in row] for row in res["ll_steps"]],
@@ -468,15 +617,18 @@ def run(ctx: Ctx, proofs_ok: bool):
                 ctx.count("spec_on_impl_rows")
 
         # 2. the same pass with select_best (same draws): the model picks from the recorded rewards
-        if cfg.sb and cfg.S >= 1:
-            cfg1 = PassCfg(cfg.mode, cfg.S, cfg.ms, True, cfg.sa, cfg.temp, cfg.top_k, cfg.top_p, cfg.flags, cfg.dtype)
+        if cfg.sb:                   # also without replicas (num_starts = 0): `if self.num_starts > 0 and self.select_best`
+            cfg1 = cfg.clone(sb=True)
             try:
                 res1, stub1 = run_pass(env, td0, seeds, cfg1, torch_seed=tseed, StubDecoder=StubDecoder)
                 res1s, _ = run_pass(env, td0, seeds, cfg1, torch_seed=tseed, ret_sum=True, StubDecoder=StubDecoder)
             except Exception as exc:
-                fails.append(("forward/%s+select_best: raises" % cfg1.decode_type(),
+                fails.append((dg.signature(exc.fn_name) if isinstance(exc, dg.DecodeTimeout) else
+                              "forward/%s+select_best%s: raises" % (cfg1.decode_type(), "" if cfg.S >= 1 else "/no-replicas"),
                               scenario_replay(name, gp, data_obj, B, seeds, cfg1, "%s: %s" % (type(exc).__name__, str(exc)[:300]))))
                 return
+            if cfg.S == 0:
+                ctx.count("stub_passes_select_best_without_replicas")
             obs1 = []
             for b in range(len(res1["actions"])):
                 a = res1["actions"][b]
@@ -492,19 +644,25 @@ def run(ctx: Ctx, proofs_ok: bool):
                                   scenario_replay(name, gp, data_obj, B, seeds, cfg1, "instance %d" % b,
                                                   {"all_rollout_actions": all_acts, "all_rewards": res["reward"],
                                                    "returned_actions": a, "returned_reward": res1["reward"][b]})))
-            add_case(name, gp, B, seeds, cfg1, table, res["reward"], flags_rows, all_acts, starts, ors, obs1, 1, "select_best")
+            add_case(name, gp, B, seeds, cfg1, table, res["reward"], flags_rows, all_acts, starts, ors, obs1, 1, "select_best",
+                     ents=res1.get("entropy"))
             ctx.count("stub_passes_select_best")
             ctx.evaluations += 1
 
+        if cfg.light or cfg.max_kind == "short":      # grid corners: the pass itself; a truncated rollout cannot be re-evaluated
+            return
         # 3. evaluate the returned actions (policy(td, env, actions=...)) on the same batch
         S_eff = cfg.S if cfg.S >= 1 else 0
         td_eval = batchify(td0, S_eff) if S_eff else td0
-        cfgE = PassCfg("evaluate", 0, False, False, True, cfg.temp, cfg.top_k, cfg.top_p, cfg.flags, cfg.dtype)
+        cfgE = PassCfg("evaluate", 0, False, False, True, cfg.temp, cfg.top_k, cfg.top_p, cfg.flags, cfg.dtype, dflt=cfg.dflt)
         acts_t = torch.tensor(all_acts, dtype=torch.int64)
         try:
             resE, stubE = run_pass(env, td_eval, seeds, cfgE, actions=acts_t, StubDecoder=StubDecoder)
             resEs, _ = run_pass(env, td_eval, seeds, cfgE, actions=acts_t, ret_sum=True, StubDecoder=StubDecoder)
         except Exception as exc:
+            if isinstance(exc, dg.DecodeTimeout):
+                fails.append((dg.signature(exc.fn_name), scenario_replay(name, gp, data_obj, B, seeds, cfg0, str(exc), {"returned_actions": all_acts})))
+                return
             if forced and isinstance(exc, AssertionError) and "Logprobs should not be -inf" in str(exc) and (cfg.top_k > 0 or 0 < cfg.top_p < 1):
                 # the same mechanism as SIG_MS_EVAL: the forced start is scored as an ordinary step, and here it lies outside the
                 # top-k support, so its log-prob is -inf and get_log_likelihood's assertion fires
@@ -526,7 +684,7 @@ def run(ctx: Ctx, proofs_ok: bool):
         obsE = [(resE["actions"][r], [exp_fr(x) for x in resE["ll_steps"][r]], exp_fr(resEs["ll_sum"][r]), rew_int(resE["reward"][r]))
                 for r in range(R)]
         add_case(name, gp, B, seeds, cfgE, tableE, resE["reward"], flagsE, resE["actions"], [], all_acts, obsE,
-                 S_eff if S_eff else 1, "evaluate")
+                 S_eff if S_eff else 1, "evaluate", ents=resE.get("entropy"))
         ctx.count("stub_evaluate_passes")
         # the round-trip property on the implementation
         for r in range(R):
@@ -570,8 +728,8 @@ def run(ctx: Ctx, proofs_ok: bool):
                 polS = ConstructivePolicy(NoEncoder(), stubS, env_name=env.name)
                 T_s = TEMPS[cfg.temp][0]
                 with torch.no_grad():
-                    outS = polS(sub.clone(), env, phase="test", actions=acts_t[r0:r0 + 1], return_sum_log_likelihood=False,
-                                temperature=T_s, top_k=cfg.top_k, top_p=cfg.top_p)
+                    outS = dg.call("ConstructivePolicy.forward", polS, sub.clone(), env, phase="test", actions=acts_t[r0:r0 + 1],
+                                   return_sum_log_likelihood=False, temperature=T_s, top_k=cfg.top_k, top_p=cfg.top_p)
                 llS = float(outS["log_likelihood"].sum())
                 ctx.count("sub_batch_evaluations")
                 ctx.count("sub_batch_evaluations_that_stop_earlier", int(outS["actions"].shape[1] < len(all_acts[r0])))
@@ -599,8 +757,8 @@ def run(ctx: Ctx, proofs_ok: bool):
                 stubT = StubDecoder(seeds, td2, getattr(torch, cfg.dtype), 0, forced=True)
                 polT = ConstructivePolicy(NoEncoder(), stubT, env_name=env.name)
                 with torch.no_grad():
-                    outT = polT(td0.clone(), env, phase="test", actions=acts_t[:, 1:], multistart=True, num_starts=cfg.S,
-                                return_sum_log_likelihood=False, temperature=T_, top_k=cfg.top_k, top_p=cfg.top_p)
+                    outT = dg.call("ConstructivePolicy.forward", polT, td0.clone(), env, phase="test", actions=acts_t[:, 1:], multistart=True,
+                                   num_starts=cfg.S, return_sum_log_likelihood=False, temperature=T_, top_k=cfg.top_k, top_p=cfg.top_p)
                 okT = [[int(a) for a in row] for row in outT["actions"]] == all_acts
                 if cfg.flags == 0:
                     dT = float((outT["log_likelihood"] - torch.tensor(res["ll_steps"], dtype=outT["log_likelihood"].dtype)).abs().max())
@@ -629,18 +787,41 @@ def run(ctx: Ctx, proofs_ok: bool):
         dtype = rng.choice(["float32", "float64"])
         kinds.append(PassCfg(mode, S, ms, sb, sa, temp, top_k, top_p, flags, dtype))
     names = list(ENVS)
-    for i, cfg in enumerate(kinds):
-        name = names[i % len(names)]
-        pool = ENVS[name] + (ENVS_THOROUGH[name] if thorough else [])
-        gp = rng.choice(pool)
-        B = rng.choice([1, 2, 2, 3, 3, 4]) if cfg.S == 0 else rng.choice([1, 2, 2, 3])
+    # deterministic streams first (they are not cut by the time budget):
+    # (1) the configuration grid select_best x multistart x num_starts in {0, 1, 2} x multisample, handed over RAW
+    det = []
+    gi = 0
+    for sb_ in (False, True):
+        for rms in (False, True):
+            for rns in (0, 1, 2):
+                for rmp in (False, True):
+                    for rep_ in range(2 if thorough else 1):
+                        det.append(("tsp", dict(num_loc=4 + gi % 2), 1 + (gi + rep_) % 3,
+                                    PassCfg("greedy" if (gi + rep_) % 2 == 0 else "sampling", 0, False, sb_, sa=(gi % 3 == 0),
+                                            dtype="float64" if gi % 4 < 2 else "float32", raw=(rms, rmp, rns, None), light=True)))
+                    gi += 1
+    # (2) max_steps at the boundary: the budget is exactly the episode (max_steps = T - 1), one more, one less
+    for envn, gp_, S_, ms_ in (("tsp", dict(num_loc=5), 0, False), ("cvrp", dict(num_loc=4), 0, False), ("pctsp", dict(num_loc=4), 0, False),
+                               ("tsp", dict(num_loc=4), 2, True)) + ((("sdvrp", dict(num_loc=4), 2, False), ("op", dict(num_loc=5), 0, False)) if thorough else ()):
+        for kind_ in ("exact", "plus1", "short"):
+            det.append((envn, gp_, 2, PassCfg("sampling" if (S_ and not ms_) or gi % 2 else "greedy", S_, ms_, False,
+                                              sa=(gi % 2 == 1), dtype="float64" if gi % 3 else "float32", max_kind=kind_)))
+            gi += 1
+    stream = det + [(None, None, None, c) for c in kinds]
+    for i, (name, gp, B, cfg) in enumerate(stream):
+        if name is None:
+            j = i - len(det)
+            name = names[j % len(names)]
+            pool = ENVS[name] + (ENVS_THOROUGH[name] if thorough else [])
+            gp = rng.choice(pool)
+            B = rng.choice([1, 2, 2, 3, 3, 4]) if cfg.S == 0 else rng.choice([1, 2, 2, 3])
         try:
-            scenario(name, gp, B, cfg, i)
+            scenario(name, gp, B, cfg, i - len(det) if i >= len(det) else 100 + i)
         except Exception as exc:  # harness-level problem: fail closed
             import traceback
             ctx.broken.append("correspondence C11/decode-loop: harness error on %s %s: %s" % (name, cfg.as_dict(), traceback.format_exc()[-600:]))
             break
-        if time.time() - t_start > (700 if thorough else 75):
+        if i >= len(det) and time.time() - t_start > (700 if thorough else 75):
             ctx.notes.append("stub stream cut after %d scenarios (time budget)" % (i + 1))
             break
     ctx.count("stub_cases_dropped_top_p_threshold_within_margin", n_dropped_margin)
@@ -662,7 +843,8 @@ def run(ctx: Ctx, proofs_ok: bool):
             "cases": len(codes), "agree": hist.get(0, 0), "disagreements": len(bad),
             "codes": {str(k): v for k, v in sorted(hist.items())}, "coq_wall_s": round(time.time() - t_coq, 1)}
         names_ = {1: "model: post_decoder_hook raises", 2: "number of returned rows", 8: "model: a step raises", 9: "model: get_log_likelihood assertion fails",
-                  3: "returned actions differ", 4: "a per-step probability differs", 5: "exp(summed LL) differs", 6: "reward of the returned row differs"}
+                  3: "returned actions differ", 4: "a per-step probability differs", 5: "exp(summed LL) differs", 6: "reward of the returned row differs",
+                  7: "entropy differs from the model's value (or: model says the constructor raises)", 10: "the code raised, the model returns"}
         if bad:
             i, c = bad[0]
             ctx.broken.append("correspondence C11/decode-loop: model and implementation differ on %d of %d passes (first: case %d, code %d = row %d, %s) %s"
@@ -681,8 +863,7 @@ def run(ctx: Ctx, proofs_ok: bool):
             c = mrow["config"]
             for _ in range(6):
                 extra_cfgs.append((mrow["env"], mrow["generator_params"], mrow["B"],
-                                   PassCfg(c["mode"] if c["mode"] != "evaluate" else "sampling", c["num_starts"], c["multistart"], c["select_best"],
-                                           c["store_all_logp"], c["temperature"], c["top_k"], c["top_p"], c["flag_kind"], c["dtype"])))
+                                   cfg_from_dict(dict(c, mode=c["mode"] if c["mode"] != "evaluate" else "sampling", max_steps=None))))
         for i in range(120):
             cfg = rng.choice(kinds)
             name = rng.choice(names)
@@ -699,6 +880,7 @@ def run(ctx: Ctx, proofs_ok: bool):
 
     # ------------------------------------------------------------------ decision
     ctx.extra["spec_on_impl_failures"] = len(fails)
+    ctx.extra["decode_guard"] = dg.evidence()
     by_sig = {}
     for sig, rep in fails:
         size = len(str(rep.get("instance", ""))) + 1000 * rep.get("batch_size", 1) + (0 if "rollout_ll_steps" in rep or "expected_ll_steps" in rep else 10 ** 6)
@@ -809,7 +991,7 @@ def per_row_function_check(pol, env, td0, acts, lls, B, S, ms, tseed, replica0_o
 
     torch.manual_seed(tseed)
     with torch.no_grad():
-        outF = pol(batchify(td0, S).clone(), env, phase="test", actions=acts, return_sum_log_likelihood=False)
+        outF = dg.call("ConstructivePolicy.forward", pol, batchify(td0, S).clone(), env, phase="test", actions=acts, return_sum_log_likelihood=False)
     for r in rows:
         bad = first_diff(outF["log_likelihood"], r, r, "the flat batch batchify(td, %d) is decoded" % S)
         if bad is not None:
@@ -820,7 +1002,7 @@ def per_row_function_check(pol, env, td0, acts, lls, B, S, ms, tseed, replica0_o
         b = r % B
         torch.manual_seed(tseed)
         with torch.no_grad():
-            outA = pol(td0[b:b + 1].clone(), env, phase="test", actions=acts[r:r + 1], return_sum_log_likelihood=False)
+            outA = dg.call("ConstructivePolicy.forward", pol, td0[b:b + 1].clone(), env, phase="test", actions=acts[r:r + 1], return_sum_log_likelihood=False)
         bad = first_diff(outA["log_likelihood"], 0, r, "instance %d is decoded alone" % b)
         if bad is not None:
             return bad
@@ -895,13 +1077,16 @@ def real_policies(ctx, rng, thorough, fails, t_start):
                         cur.update(wseed=wseed, tseed=tseed, kw=dict(kw))
                         torch.manual_seed(tseed)
                         with torch.no_grad():
-                            out = pol(td0.clone(), env, phase="test", decode_type=dt, return_actions=True, return_entropy=True,
-                                      return_sum_log_likelihood=False, **kw)
+                            out = dg.call("ConstructivePolicy.forward", pol, td0.clone(), env, phase="test", decode_type=dt, return_actions=True,
+                                          return_entropy=True, return_sum_log_likelihood=False, **kw)
                         recs = list(records)
                         torch.manual_seed(tseed)
                         del records[:]
                         with torch.no_grad():
-                            out_s = pol(td0.clone(), env, phase="test", decode_type=dt, return_actions=True, **kw)
+                            out_s = dg.call("ConstructivePolicy.forward", pol, td0.clone(), env, phase="test", decode_type=dt, return_actions=True, **kw)
+                    except dg.DecodeTimeout as exc:
+                        fails.append((dg.signature(exc.fn_name), fail(label, envname, gp, B, dt, str(exc), {"instance": td_to_obj(data)})))
+                        continue
                     except Exception as exc:
                         skipped.append("%s/%s/%s (pass raises: %s)" % (label, envname, dt, str(exc)[:100]))
                         continue
@@ -980,12 +1165,14 @@ def real_policies(ctx, rng, thorough, fails, t_start):
                         del records[:]
                         torch.manual_seed(tseed)
                         with torch.no_grad():
-                            outE = pol(td_eval.clone(), env, phase="test", actions=acts, return_entropy=True, return_sum_log_likelihood=False, **ekw)
+                            outE = dg.call("ConstructivePolicy.forward", pol, td_eval.clone(), env, phase="test", actions=acts, return_entropy=True,
+                                           return_sum_log_likelihood=False, **ekw)
                         torch.manual_seed(tseed + 1)
                         with torch.no_grad():
-                            outB = pol(td_eval.clone(), env, phase="test", actions=acts, return_entropy=True, return_sum_log_likelihood=False, **ekw)
+                            outB = dg.call("ConstructivePolicy.forward", pol, td_eval.clone(), env, phase="test", actions=acts, return_entropy=True,
+                                           return_sum_log_likelihood=False, **ekw)
                     except Exception as exc:
-                        fails.append(("real-policy/evaluate: raises on the actions a pass returned",
+                        fails.append((dg.signature(exc.fn_name) if isinstance(exc, dg.DecodeTimeout) else "real-policy/evaluate: raises on the actions a pass returned",
                                       fail(label, envname, gp, B, dt, "%s: %s" % (type(exc).__name__, str(exc)[:200]), {"instance": td_to_obj(data)})))
                         continue
                     llE = outE["log_likelihood"].double()
@@ -1092,12 +1279,21 @@ def replay(obj):
     data = obj_to_td(obj["instance"], B)
     td0 = env.reset(data)
     c = obj["config"]
-    cfg = PassCfg(c["mode"], c["num_starts"], c["multistart"], c["select_best"], c["store_all_logp"], c["temperature"], c["top_k"],
-                  c["top_p"], c["flag_kind"], c["dtype"])
+    cfg = cfg_from_dict(c)
     Stub = make_stub_cls()
-    res, stub = run_pass(env, td0, obj["seeds"], cfg, torch_seed=0, StubDecoder=Stub)
-    res_s, _ = run_pass(env, td0, obj["seeds"], cfg, torch_seed=0, ret_sum=True, StubDecoder=Stub)
     print("config    :", c)
+    try:
+        res, stub = run_pass(env, td0, obj["seeds"], cfg, torch_seed=0, StubDecoder=Stub)
+        res_s, _ = run_pass(env, td0, obj["seeds"], cfg, torch_seed=0, ret_sum=True, StubDecoder=Stub)
+    except Exception as exc:
+        print("observed now: the pass RAISES %s: %s" % (type(exc).__name__, str(exc)[:300]))
+        print("expected (property): the pass returns (select_best without replicas returns the plain rollout)")
+        return 1
+    if c.get("max_steps") is not None:
+        ref, stubR = run_pass(env, td0, obj["seeds"], cfg.clone(max_steps=None), torch_seed=0, StubDecoder=Stub)
+        print("the same pass without max_steps needs %d decoder steps and returns %s" % (stubR.calls, ref["actions"]))
+        print("with max_steps=%d (loop: `step += 1; if step > max_steps: break`, i.e. up to %d steps) it returns %s" % (
+            c["max_steps"], c["max_steps"] + 1, res["actions"]))
     print("observed now: actions", res["actions"])
     print("observed now: per-step log-likelihood", res["ll_steps"])
     print("observed now: log_likelihood (sum)", res_s["ll_sum"], " reward", res["reward"])
